@@ -496,15 +496,20 @@ def spfa_dequeue(facts):
             lhs = st["lhs"]
             if lhs["p"] and lhs["p"][0] == "*" and st["rv"]["k"] == "use" and st["rv"]["o"][0].get("const") in ("0", "false") and st["rv"]["o"][0].get("ty") == "bool":
                 base = b.local_expr(lhs["l"], 8, named_leaf=True)
-                if any(x[0] == "local" and b.lname(x[1]) == "in_queue" for x in leaves(base)):
+                if any(x[0] == "local" and "bool" in b.lty(x[1]) for x in leaves(base)):
                     stores.append(i)
         o.check(b, "dequeue-store", b.line, bool(stores), "in_queue[i] = false found", "no `in_queue[..] = false` store found")
         n = 0
-        for i, t in calls_named(b, ("push",)):
-            if not norm_path(t["f"]["path"]).startswith("alloc::vec::Vec") or not dom_atoms(b, i):
+        # the work list: the container that is popped (any end) - identified by the pop, not by its name
+        worklists = set()
+        for i, t in calls_named(b, ("pop", "pop_front", "pop_back")):
+            if norm_path(t["f"]["path"]).startswith(("alloc::vec::Vec", "alloc::collections::VecDeque")):
+                worklists |= {x for x in leaves(b.expr(t["args"][0], 6, named_leaf=True)) if x[0] == "local"}
+        for i, t in calls_named(b, ("push", "push_back", "push_front")):
+            if not norm_path(t["f"]["path"]).startswith(("alloc::vec::Vec", "alloc::collections::VecDeque")) or not dom_atoms(b, i):
                 continue
             e = b.expr(t["args"][0], 6, named_leaf=True)
-            if not any(x[0] == "local" and b.lname(x[1]) == "queue" for x in leaves(e)):
+            if not ({x for x in leaves(e) if x[0] == "local"} & worklists):
                 continue
             if len(b.dominating_edges(i)) < 2:
                 continue
